@@ -1,0 +1,26 @@
+//go:build verif
+
+package dp
+
+// Contracts for the deductive verifier in /verif (govc). Only compiled with -tags verif.
+
+// The wavefront extensions are not verified: they are trusted to touch only the end records and the score vectors.
+//@ func (*kernel).traceForward
+//@   trusted
+//@   assigns k.lowEnd.Aepos, k.lowEnd.Bepos, k.lowEnd.LowDiagonal, k.lowEnd.HighDiagonal, k.lowEnd.Score, k.vectors, elems(int)
+//@ func (*kernel).traceReverse
+//@   trusted
+//@   assigns k.highEnd.Abpos, k.highEnd.Bbpos, k.highEnd.LowDiagonal, k.highEnd.HighDiagonal, k.highEnd.Score, k.vectors, elems(int)
+
+// Every hit emitted on the result channel is at least the minimum hit length on both sequences and reports an
+// error no greater than the bound (1 - minimum identity).
+//@ chaninv kernel.result h :: h.Bepos - h.Bbpos >= self.minLen && h.Aepos - h.Abpos >= self.minLen && h.Error <= self.maxDiff
+
+//@ func (*kernel).alignRecursion
+//@   property C15
+//@   requires k != nil && 0 <= k.slot && k.slot < len(k.trapezoids) && len(k.covered) == len(k.trapezoids)
+//@   ensures [kept] k.slot == old(k.slot) && k.trapezoids == old(k.trapezoids) && len(k.covered) == len(k.trapezoids) && k.minLen == old(k.minLen) && k.maxDiff == old(k.maxDiff)
+//@   assigns k.lowEnd.Aepos, k.lowEnd.Bepos, k.lowEnd.LowDiagonal, k.lowEnd.HighDiagonal, k.lowEnd.Score, k.highEnd.Abpos, k.highEnd.Bbpos, k.highEnd.Aepos, k.highEnd.Bepos, k.highEnd.LowDiagonal, k.highEnd.HighDiagonal, k.highEnd.Score, k.highEnd.Error, k.vectors, elems(int), k.covered[*]
+//@   loop 1 invariant x >= 1 && k.slot == old(k.slot) && k.trapezoids == old(k.trapezoids) && k.covered == old(k.covered) && k.minLen == old(k.minLen) && k.maxDiff == old(k.maxDiff)
+//@   loop 2 invariant 0 <= idx && idx <= len(k.trapezoids) - k.slot - 1 && k.slot == old(k.slot) && k.trapezoids == old(k.trapezoids) && k.covered == old(k.covered) && k.minLen == old(k.minLen) && k.maxDiff == old(k.maxDiff)
+//@   loop 2 invariant [guards] k.highEnd.Bepos - k.highEnd.Bbpos >= k.minLen && k.highEnd.Aepos - k.highEnd.Abpos >= k.minLen && k.highEnd.Error <= k.maxDiff
